@@ -663,9 +663,9 @@ def gen_get_at(ctx, op):
 def gen_update(ctx, op):
     pool = _vector_units(ctx, 3, allow_fam=False)
     extra = [("leaf", ctx.new_axis(), False) for _ in range(ctx.draw(st.integers(0, 2)))]
-    K = ctx.draw(st.sampled_from([1, 1, 2, 2, 3]))
+    K = 1 if getattr(ctx, "flags", {}).get("k1") else ctx.draw(st.sampled_from([1, 1, 2, 2, 3]))
     tgt_br = [("leaf", ctx.new_axis(no1=ctx.b(0.8)), True) for _ in range(K)]
-    tgt_vec = ctx.subset(pool, 0.6)
+    tgt_vec = [] if getattr(ctx, "flags", {}).get("tgt_novec") else ctx.subset(pool, 0.6)
     tgt_units = _interleave(ctx, ctx.perm(tgt_vec), tgt_br)
     parts = _coord_layout(ctx, K)
     coord_units = []
